@@ -8,6 +8,16 @@
 (*            out of four x three sources, one plain query                  *)
 (*   catalog  every catalog of at most three origins out of {., z., a.z.,   *)
 (*            b.a.z., o.} x every handler chain of the model x six names    *)
+(*   route    every such catalog (nested, sibling, root, single, empty) x   *)
+(*            query names with unusual first labels around every origin of  *)
+(*            the universe: the origin itself, one label below it, a        *)
+(*            leading "*" directly below it and one level further down, a   *)
+(*            "*" in the middle, a 63-octet label -- each in lower case and *)
+(*            with the letters in upper case on the wire (RFC 4343: names   *)
+(*            compare case-insensitively; the echo is still byte for byte)  *)
+(* A label value below 256 is that single octet; 1000 + c stands for the    *)
+(* label of 63 octets c.  `ucase` asks the concretiser to send the letters  *)
+(* of the question name in upper case.                                      *)
 (* Each case carries what FrontDoorReq prescribes for the message and for   *)
 (* the plain probe query sent right after it (C11_Survives).                *)
 EXTENDS FrontDoorReq, TLC, Json, FiniteSets
@@ -37,21 +47,28 @@ GateReqs ==
     \cup {Req(FALSE, FALSE, op, qd, qok, be[1], be[2], s, qn) :
             op \in {0, 5, 4, 2, 1, 7}, qd \in 0..2, qok \in BOOLEAN,
             be \in {<<"ok", "none">>, <<"ok", "v0">>, <<"ok", "v1">>, <<"bad", "none">>},
-            s \in {Src1, Src2}, qn \in {<<lx, la, lz>>, <<lx, lo>>}}
-GateCases == {[g |-> "gate", proto |-> p, req |-> r, cfg |-> GateCfg] : r \in GateReqs, p \in {"udp", "tcp"}}
+            s \in {Src1, Src2}, qn \in {<<lx, la, lz>>, <<lx, lo>>, <<STAR, la, lz>>}}
+GateCases == {[g |-> "gate", proto |-> p, req |-> r, cfg |-> GateCfg, ucase |-> FALSE] : r \in GateReqs, p \in {"udp", "tcp"}}
 
 \* ---- family "acl"
 Lists == {S \in SUBSET {P0, P8, P16, P24} : Cardinality(S) <= 2}
-AclCases == {[g |-> "acl", proto |-> "udp", req |-> PlainQ(s, <<lx, la, lz>>), cfg |-> Cfg({ZZ}, <<"C">>, al, dn)] :
+AclCases == {[g |-> "acl", proto |-> "udp", req |-> PlainQ(s, <<lx, la, lz>>), cfg |-> Cfg({ZZ}, <<"C">>, al, dn), ucase |-> FALSE] :
                 al \in Lists, dn \in Lists, s \in {Src1, Src2, Src3}}
 
 \* ---- family "catalog"
 OriginSets == {S \in SUBSET {ZRoot, ZZ, ZA, ZBA, ZO} : Cardinality(S) <= 3}
 CatNames == {<<lx, la, lz>>, ZZ, <<lx, lo>>, <<lx, lb, la, lz>>, ZBA, <<lx>>}
-CatCases == {[g |-> "catalog", proto |-> "tcp", req |-> PlainQ(Src3, qn), cfg |-> Cfg(os, ch, {}, {})] :
+CatCases == {[g |-> "catalog", proto |-> "tcp", req |-> PlainQ(Src3, qn), cfg |-> Cfg(os, ch, {}, {}), ucase |-> FALSE] :
                 os \in OriginSets, ch \in Chains, qn \in CatNames}
 
-Cases == GateCases \cup AclCases \cup CatCases
+\* ---- family "route"
+L63 == 1000 + lx
+Around(og) == {og, <<lx>> \o og, <<STAR>> \o og, <<STAR, lx>> \o og, <<lx, STAR>> \o og, <<L63>> \o og}
+RouteNames == UNION {Around(og) : og \in {ZRoot, ZZ, ZA, ZBA, ZO}}
+RouteCases == {[g |-> "route", proto |-> p, req |-> PlainQ(Src3, qn), cfg |-> Cfg(os, ch, {}, {}), ucase |-> u] :
+                os \in OriginSets, ch \in {<<"C">>, <<"S", "B">>}, qn \in RouteNames, u \in BOOLEAN, p \in {"udp"}}
+
+Cases == GateCases \cup AclCases \cup CatCases \cup RouteCases
 
 Expect(r, cfg) ==
     LET plain == Plain(r, cfg.allow, cfg.deny) /\ "deny" \notin AclDecisions(cfg.allow, cfg.deny, r.src)
@@ -66,7 +83,7 @@ Probe(c) == PlainQ(c.req.src, <<lx, la, lz>>)
 
 CfgJson(cfg) == [origins |-> cfg.origins, chains |-> {[o |-> og, ch |-> cfg.chain[og]] : og \in cfg.origins},
                  allow |-> cfg.allow, deny |-> cfg.deny]
-CaseJson(c) == [g |-> c.g, proto |-> c.proto, req |-> c.req, cfg |-> CfgJson(c.cfg), exp |-> Expect(c.req, c.cfg),
+CaseJson(c) == [g |-> c.g, proto |-> c.proto, ucase |-> c.ucase, req |-> c.req, cfg |-> CfgJson(c.cfg), exp |-> Expect(c.req, c.cfg),
                 probe |-> Probe(c), pexp |-> Expect(Probe(c), c.cfg)]
 
 Init == dummy = 0
